@@ -13,6 +13,7 @@ package harness
 
 import (
 	"fmt"
+	"math"
 	"sort"
 	"strings"
 	"testing"
@@ -1007,5 +1008,465 @@ func TestC11(t *testing.T) {
 	seqs := scale(300, 4000)
 	for s := 0; s < seqs; s++ {
 		e.genSequence(base, s)
+	}
+}
+
+
+// ---------------------------------------------------------------------------------------------------
+// C11, limit bids auto-filled by Dutch auctions: the limit-bid book joined with one second-generation Dutch auction and the module
+// account, driven through the REAL begin-blocker of x/auctionsV2 (AuctionIterator + LimitOrderBid).  The seized position comes
+// from the C10 fixture (c10newFix / c10start: real vault + real liquidation, asset ids of collateral and debt differ in every
+// pair); everything after the seizure is printed as `lfill.*` lines for the joint model (Model/LimitFill.lean).
+// ---------------------------------------------------------------------------------------------------
+
+type c11fill struct {
+	*c10seq
+	cf, wf sdk.Dec
+}
+
+// book prints the records of the market in the store's order and the recorded total
+func (s *c11fill) book() string {
+	bv := "none"
+	if pd, found := s.f.app.NewaucKeeper.GetLimitBidProtocolDataByAssetID(s.ctx, s.p.debt.id, s.p.coll.id); found {
+		bv = pd.BidValue.String()
+	}
+	lb := s.limitBids()
+	if lb == "-" {
+		lb = ""
+	}
+	return "deps=" + lb + "|bv=" + bv
+}
+
+func c11fillStart(t *testing.T, f *c10fix, tr *Trace, cfg c10cfg, cf, wf string) *c11fill {
+	s0 := c10start(t, f, tr, cfg)
+	if s0 == nil {
+		return nil
+	}
+	s := &c11fill{c10seq: s0, cf: c10dec(cf), wf: c10dec(wf)}
+	p, _ := f.app.NewaucKeeper.GetAuctionParams(s.ctx)
+	p.ClosingFee, p.WithdrawalFee = s.cf, s.wf
+	f.app.NewaucKeeper.SetAuctionParams(s.ctx, p)
+	// the store iterates the records of one premium in the order of the bidders' address STRINGS
+	names := []string{"b1", "b2", "b3", "b4"}
+	sort.Slice(names, func(i, j int) bool { return c10addr(names[i]).String() < c10addr(names[j]).String() })
+	tr.Line("lfill.begin", s.env, fmt.Sprintf("cf=%s;wf=%s;order=%s", c10raw(s.cf), c10raw(s.wf), strings.Join(names, ",")), s.state(), s.book())
+	tr.Count("fill:begin:" + cfg.kind)
+	if s.p.coll.id == s.p.debt.id {
+		t.Fatalf("collateral and debt asset ids must differ")
+	}
+	return s
+}
+
+func (s *c11fill) own(who string, prem int64) (sdk.Int, bool) {
+	r, found := s.f.app.NewaucKeeper.GetUserLimitBidData(s.ctx, s.p.debt.id, s.p.coll.id, sdk.NewInt(prem), c10addr(who).String())
+	if !found {
+		return sdk.ZeroInt(), false
+	}
+	return r.DebtToken.Amount, true
+}
+
+func (s *c11fill) fbid(who string, amt sdk.Int) {
+	dt, _ := s.debtTwa()
+	_, cl := c10deliver(s.f.app, s.ctx, auctionsV2types.NewMsgPlaceMarketBid(c10addr(who).String(), s.aucID, sdk.Coin{Denom: s.p.debt.denom, Amount: amt}))
+	s.tr.Count("fill:bid:" + cl)
+	s.tr.Line("lfill.bid", who, amt.String(), u(dt), cl, s.state(), s.book())
+}
+
+func (s *c11fill) fdep(who string, prem int64, amt sdk.Int) {
+	_, cl := c10deliver(s.f.app, s.ctx, auctionsV2types.NewMsgDepositLimitBid(c10addr(who).String(), s.p.coll.id, s.p.debt.id, sdk.NewInt(prem), sdk.Coin{Denom: s.p.debt.denom, Amount: amt}))
+	s.tr.Count("fill:dep:" + cl)
+	s.tr.Line("lfill.dep", who, i64(prem), amt.String(), cl, s.state(), s.book())
+}
+
+func (s *c11fill) fcancel(who string, prem int64) {
+	_, cl := c10deliver(s.f.app, s.ctx, auctionsV2types.NewMsgCancelLimitBid(c10addr(who).String(), s.p.coll.id, s.p.debt.id, sdk.NewInt(prem)))
+	s.tr.Count("fill:cancel:" + cl)
+	s.tr.Line("lfill.cancel", who, i64(prem), cl, s.state(), s.book())
+}
+
+func (s *c11fill) fwd(who string, prem int64, amt sdk.Int) {
+	_, cl := c10deliver(s.f.app, s.ctx, auctionsV2types.NewMsgWithdrawLimitBid(c10addr(who).String(), s.p.coll.id, s.p.debt.id, sdk.NewInt(prem), sdk.Coin{Denom: s.p.debt.denom, Amount: amt}))
+	s.tr.Count("fill:wd:" + cl)
+	s.tr.Line("lfill.wd", who, i64(prem), amt.String(), cl, s.state(), s.book())
+}
+
+func (s *c11fill) freserve(amt sdk.Int) {
+	_, cl := c10deliver(s.f.app, s.ctx, liquidationsV2types.NewMsgAppReserveFundsRequest(c10addr("b4").String(), s.f.appID, s.p.debt.id, sdk.NewCoin(s.p.debt.denom, amt)))
+	s.tr.Line("lfill.reserve", "b4", amt.String(), cl, s.state(), s.book())
+}
+
+// ftick advances the block time and runs the real BeginBlocker of auctionsV2; returns the bidders whose record it debited
+func (s *c11fill) ftick(dt time.Duration) []string {
+	s.now = s.now.Add(dt)
+	s.h++
+	s.ctx = s.ctx.WithBlockTime(s.now).WithBlockHeight(s.h)
+	tc, ac := s.collTwa()
+	td, ad := s.debtTwa()
+	before := s.limitBids()
+	aBefore, openBefore := s.auction()
+	panicked, _ := try(func() { auctionsV2.BeginBlocker(s.ctx, s.f.app.NewaucKeeper) })
+	cl := "ok"
+	if panicked {
+		cl = "panic"
+	}
+	b := func(x bool) string {
+		if x {
+			return "1"
+		}
+		return "0"
+	}
+	// which branch of the loop each debited record took (distribution only)
+	var filled []string
+	if before != "-" && openBefore {
+		perPrem := map[int64]int{}
+		for _, it := range strings.Split(before, ",") {
+			var prem int64
+			var name, amtS string
+			parts := strings.Split(it, ":")
+			if len(parts) != 3 {
+				continue
+			}
+			fmt.Sscanf(parts[0], "%d", &prem)
+			name, amtS = parts[1], parts[2]
+			amt, _ := sdk.NewIntFromString(amtS)
+			after, found := s.own(name, prem)
+			if found && after.Equal(amt) {
+				continue
+			}
+			filled = append(filled, fmt.Sprintf("%s:%d", name, prem))
+			perPrem[prem]++
+			switch {
+			case amt.LT(aBefore.DebtToken.Amount):
+				s.tr.Count("fill:branch:deposit<debt")
+			case amt.Equal(aBefore.DebtToken.Amount):
+				s.tr.Count("fill:branch:deposit=debt")
+			default:
+				s.tr.Count("fill:branch:deposit>debt")
+			}
+		}
+		for _, n := range perPrem {
+			if n >= 2 {
+				s.tr.Count("fill:several-bidders-in-one-bucket")
+			}
+		}
+		if len(filled) > 0 {
+			s.tr.Count("fill:block-with-fill")
+			if _, open := s.auction(); !open {
+				s.tr.Count("fill:fill-closes-auction")
+			} else {
+				s.tr.Count("fill:partial-fill")
+			}
+		}
+	}
+	s.tr.Line("lfill.tick", b(s.esmOn), i64(s.now.Unix()), u(tc), b(ac), u(td), b(ad), cl, s.state(), s.book())
+	return filled
+}
+
+// the premium bucket the auction is in right now (what LimitOrderBid will compute if the price does not move)
+func c11bucket(a auctionsV2types.Auction) int64 {
+	if !a.CollateralTokenOraclePrice.IsPositive() || !a.CollateralTokenOraclePrice.GT(a.CollateralTokenAuctionPrice) {
+		return -1
+	}
+	return a.CollateralTokenOraclePrice.Sub(a.CollateralTokenAuctionPrice).Quo(a.CollateralTokenOraclePrice).MulInt64(100).TruncateInt64()
+}
+
+// aim: seconds from now until the posted price is in the middle of bucket k (0 if unreachable inside the window)
+func (s *c11fill) aim(a auctionsV2types.Auction, cfg c10cfg, k int64) int64 {
+	disc := c10dec(cfg.discount)
+	T := int64(cfg.T)
+	el := int64(s.now.Sub(a.StartTime) / time.Second)
+	if !a.CollateralTokenInitialPrice.IsPositive() || !disc.LT(sdk.OneDec()) {
+		return 0
+	}
+	want := a.CollateralTokenOraclePrice.Mul(sdk.NewDec(200 - 2*k - 1)).QuoInt64(200)
+	tauD := sdk.NewDec(T).Quo(sdk.OneDec().Sub(disc))
+	dur := tauD.Mul(sdk.OneDec().Sub(want.Quo(a.CollateralTokenInitialPrice))).TruncateInt64()
+	if dur > el && dur <= T {
+		return dur - el
+	}
+	return 0
+}
+
+func (s *c11fill) randomOps(rng *Rng, cfg c10cfg) {
+	bidders := []string{"b1", "b2", "b3", "b4"}
+	nops := 5 + rng.Intn(14)
+	var lastFilled []string
+	// emergency shutdown of the app in some sequences (the iterator's shutdown branch; TriggerEsm for vault-initiated auctions)
+	esmAt := -1
+	if rng.Chance(12) {
+		esmAt = rng.Intn(nops)
+	}
+	if a, open := s.auction(); open && rng.Chance(30) {
+		// two to four bidders wait at ONE premium (some of them below the remaining debt, so that the loop goes on after them)
+		prem := c11bucket(a) + 1 + int64(rng.Intn(3))
+		if prem < 0 {
+			prem = int64(1 + rng.Intn(3))
+		}
+		nb := 2 + rng.Intn(3)
+		perm := []string{"b1", "b2", "b3", "b4"}
+		for i := 0; i < nb; i++ {
+			amt := a.DebtToken.Amount.MulRaw(int64(5 + rng.Intn(40))).QuoRaw(100)
+			if i == nb-1 && rng.Chance(35) {
+				amt = a.DebtToken.Amount.MulRaw(int64(60 + rng.Intn(100))).QuoRaw(100) // the last one may be large (may close, may exceed)
+			}
+			if !amt.IsPositive() {
+				amt = sdk.NewInt(1)
+			}
+			s.fdep(perm[(i+int(prem))%4], prem, amt)
+		}
+		if d := s.aim(a, cfg, prem); d > 0 {
+			s.tr.Count("fill:tick:aimed-at-shared-premium")
+			lastFilled = s.ftick(time.Duration(d) * time.Second)
+		}
+	}
+	for o := 0; o < nops; o++ {
+		if o == esmAt {
+			s.esm(true)
+			s.tr.Count("fill:esm-on:" + s.kind)
+		}
+		a, open := s.auction()
+		// after an auto-fill: the debited depositors come back for the rest (cancel / withdraw right after the begin-block)
+		if len(lastFilled) > 0 && rng.Chance(70) {
+			var who string
+			var prem int64
+			fmt.Sscanf(strings.Replace(lastFilled[rng.Intn(len(lastFilled))], ":", " ", 1), "%s %d", &who, &prem)
+			lastFilled = nil
+			own, has := s.own(who, prem)
+			switch {
+			case !has || rng.Chance(40):
+				s.tr.Count("fill:cancel-after-fill")
+				s.fcancel(who, prem)
+			case rng.Chance(50):
+				s.tr.Count("fill:withdraw-all-after-fill")
+				s.fwd(who, prem, own)
+			default:
+				s.tr.Count("fill:withdraw-part-after-fill")
+				s.fwd(who, prem, own.QuoRaw(2).AddRaw(1))
+			}
+			continue
+		}
+		lastFilled = nil
+		if !open {
+			// the auction is gone: the book must still be consistent; let the depositors leave
+			recs := s.limitBids()
+			if recs == "-" || rng.Chance(30) {
+				s.ftick(time.Duration(1+rng.Intn(100)) * time.Second)
+				if recs == "-" {
+					return
+				}
+				continue
+			}
+			it := strings.Split(strings.Split(recs, ",")[rng.Intn(len(strings.Split(recs, ",")))], ":")
+			var prem int64
+			fmt.Sscanf(it[0], "%d", &prem)
+			if rng.Chance(50) {
+				s.fcancel(it[1], prem)
+			} else {
+				own, _ := s.own(it[1], prem)
+				s.fwd(it[1], prem, own.QuoRaw(int64(1+rng.Intn(3))).AddRaw(int64(rng.Intn(2))))
+			}
+			continue
+		}
+		D := a.DebtToken.Amount
+		cur := c11bucket(a)
+		r := rng.Intn(100)
+		switch {
+		case r < 34:
+			// deposit aimed at the bucket the auction is in or will reach; several bidders at one premium are wanted
+			prem := cur + int64(rng.Intn(4))
+			if prem < 0 {
+				prem = int64(rng.Intn(3))
+			}
+			joined := false
+			if recs := s.limitBids(); recs != "-" && rng.Chance(45) {
+				fmt.Sscanf(strings.Split(recs, ",")[rng.Intn(len(strings.Split(recs, ",")))], "%d:", &prem) // join somebody's premium
+				s.tr.Count("fill:dep:joins-existing-premium")
+				joined = true
+			}
+			if rng.Chance(6) {
+				prem = []int64{31, 30, -1}[rng.Intn(3)]
+			}
+			var amt sdk.Int
+			switch rng.Intn(10) {
+			case 0, 1, 2:
+				amt = D // exactly the remaining debt
+				s.tr.Count("fill:dep:amount=debt")
+			case 3, 4, 5:
+				amt = D.MulRaw(int64(101 + rng.Intn(200))).QuoRaw(100).AddRaw(1) // more than the remaining debt
+				s.tr.Count("fill:dep:amount>debt")
+			case 6:
+				amt = D.AddRaw(int64(rng.Intn(3)) - 1)
+				s.tr.Count("fill:dep:amount~debt")
+			default:
+				amt = D.MulRaw(int64(5 + rng.Intn(90))).QuoRaw(100) // less
+				s.tr.Count("fill:dep:amount<debt")
+			}
+			if joined && rng.Chance(60) {
+				// several small deposits at one premium: all of them are filled in one block (D7: against the value read before the loop)
+				amt = D.MulRaw(int64(5 + rng.Intn(28))).QuoRaw(100)
+			}
+			if !amt.IsPositive() {
+				amt = sdk.NewInt(1)
+			}
+			s.fdep(bidders[rng.Intn(4)], prem, amt)
+		case r < 62:
+			// a block, mostly aimed at the premium of a waiting record
+			T := int64(cfg.T)
+			el := int64(s.now.Sub(a.StartTime) / time.Second)
+			dt := int64(1 + rng.Intn(int(T)/4+1))
+			if recs := s.limitBids(); recs != "-" && rng.Chance(80) {
+				var k int64
+				fmt.Sscanf(strings.Split(recs, ",")[rng.Intn(len(strings.Split(recs, ",")))], "%d:", &k)
+				if d := s.aim(a, cfg, k); d > 0 {
+					dt = d
+					s.tr.Count("fill:tick:aimed")
+				}
+			} else if rng.Chance(15) {
+				dt = T - el + 1 // restart
+			}
+			if dt < 1 {
+				dt = 1
+			}
+			if rng.Chance(8) {
+				tc, _ := s.collTwa()
+				nt := tc * uint64(85+rng.Intn(31)) / 100
+				if nt == 0 {
+					nt = 1
+				}
+				s.setColl(nt, !rng.Chance(15))
+			}
+			lastFilled = s.ftick(time.Duration(dt) * time.Second)
+		case r < 76:
+			// market bid: changes the remaining debt under the waiting records
+			var amt sdk.Int
+			switch rng.Intn(6) {
+			case 0:
+				amt = D
+			case 1:
+				amt = D.MulRaw(2)
+			default:
+				amt = D.MulRaw(int64(1 + rng.Intn(80))).QuoRaw(100)
+			}
+			if !amt.IsPositive() {
+				amt = sdk.NewInt(1)
+			}
+			s.fbid(bidders[rng.Intn(4)], amt)
+		case r < 90:
+			recs := s.limitBids()
+			if recs == "-" {
+				s.fcancel(bidders[rng.Intn(4)], cur) // no record
+				continue
+			}
+			it := strings.Split(strings.Split(recs, ",")[rng.Intn(len(strings.Split(recs, ",")))], ":")
+			var prem int64
+			fmt.Sscanf(it[0], "%d", &prem)
+			own, _ := s.own(it[1], prem)
+			switch rng.Intn(6) {
+			case 0:
+				s.fcancel(it[1], prem)
+			case 1:
+				s.fwd(it[1], prem, own) // full amount: the cancel path
+			case 2:
+				s.fwd(it[1], prem, own.AddRaw(1)) // one more than the own record: must be refused
+				s.tr.Count("fill:wd:own+1")
+			case 3:
+				s.fwd(bidders[rng.Intn(4)], prem, own) // maybe somebody else's record
+			default:
+				x := own.QuoRaw(int64(2 + rng.Intn(3)))
+				if !x.IsPositive() {
+					x = own
+				}
+				s.fwd(it[1], prem, x)
+			}
+		default:
+			s.freserve(D.MulRaw(int64(1 + rng.Intn(50))).QuoRaw(100).AddRaw(1))
+		}
+	}
+}
+
+func c11fillCfg(f *c10fix, rng *Rng) c10cfg {
+	cfg := c10genCfg(f, rng)
+	if cfg.kind == "external" && rng.Chance(50) {
+		cfg.kind = "vault"
+	}
+	cfg.second, cfg.trackSecond = false, false // one auction per market: the book is shared by every auction of the pair
+	cfg.T = []uint64{600, 3600, 3600, 86400}[rng.Intn(4)]
+	cfg.discount = []string{"0.7", "0.7", "0.5", "0.6"}[rng.Intn(4)]
+	// the app reserve can always cover an exhausted collateral (a short reserve is C10's D23)
+	cfg.reserve = math.MaxInt64 / 8
+	if cfg.kind == "external" {
+		cfg.incentive = "0"
+	}
+	return cfg
+}
+
+func TestC11Fill(t *testing.T) {
+	tr := OpenTrace(t, "c11fill.trace")
+	defer tr.Close(t)
+	rng := NewRng(seed()<<40 + 11)
+	f := c10newFix(t)
+	base := c10cfg{pair: 0, kind: "vaultkeeper", amountIn: sdk.NewInt(1000000), amountOut: sdk.NewInt(1000000), dropTo: 1400000, T: 3600,
+		premium: "1.2", discount: "0.7", incentive: "0.1", minUsd: 100000, bonusRate: "0", penaltyExt: "0.1", reserve: 100000000}
+	// ---- corpus 1: deposit = remaining debt — the record is deleted, BidValue keeps counting it
+	if s := c11fillStart(t, f, tr, base, "0", "0"); s != nil {
+		s.fdep("b1", 9, sdk.NewInt(1120000))
+		s.fdep("b2", 20, sdk.NewInt(500000))
+		s.ftick(2950 * time.Second)
+		s.fcancel("b2", 20)
+		tr.Count("corpus:fill-exact")
+	}
+	// ---- corpus 2: deposit > remaining debt, then the depositor cancels the rest; a second depositor must stay whole
+	if s := c11fillStart(t, f, tr, base, "0.01", "0.005"); s != nil {
+		s.fdep("b1", 9, sdk.NewInt(3000000))
+		s.fdep("b2", 20, sdk.NewInt(600000))
+		s.ftick(2950 * time.Second)
+		s.fwd("b1", 9, sdk.NewInt(880001)) // more than what is left of the own deposit (1 880 000 − … ): refused
+		s.fwd("b1", 9, sdk.NewInt(1880001))
+		s.fcancel("b1", 9)
+		s.fcancel("b2", 20)
+		tr.Count("corpus:fill-greater")
+	}
+	// ---- corpus 3: deposit < remaining debt, two bidders at one premium (D7: both filled against the value read before the loop)
+	if s := c11fillStart(t, f, tr, base, "0", "0"); s != nil {
+		s.fdep("b1", 9, sdk.NewInt(400000))
+		s.fdep("b2", 9, sdk.NewInt(400000))
+		s.fdep("b3", 10, sdk.NewInt(250000))
+		s.ftick(2950 * time.Second)
+		s.ftick(50 * time.Second)
+		s.fcancel("b3", 10)
+		s.fbid("b4", sdk.NewInt(5000000))
+		tr.Count("corpus:fill-two-at-one-premium")
+	}
+	// ---- corpus 4: a fill clipped by exhausted collateral debits the whole remaining target (D24)
+	cfg := base
+	cfg.dropTo = 1000000
+	if s := c11fillStart(t, f, tr, cfg, "0", "0"); s != nil {
+		s.fdep("b1", 1, sdk.NewInt(2000000))
+		s.ftick(2100 * time.Second)
+		s.fcancel("b1", 1)
+		tr.Count("corpus:fill-clipped")
+	}
+	// ---- corpus 5: emergency shutdown, vault-initiated auction past its window: TriggerEsm forwards the 100 000 b1 paid, and then
+	// forwards 100 000 again every block — out of b4's limit deposit, which b4 can then no longer cancel (D35)
+	if s := c11fillStart(t, f, tr, base, "0", "0"); s != nil {
+		s.fbid("b1", sdk.NewInt(100000))
+		s.fdep("b4", 30, sdk.NewInt(250000))
+		s.esm(true)
+		s.ftick(61 * time.Minute)
+		s.ftick(1 * time.Minute)
+		s.ftick(1 * time.Minute)
+		s.ftick(1 * time.Minute)
+		s.fcancel("b4", 30)
+		tr.Count("corpus:fill-esm-trigger")
+	}
+	n := scale(260, 6000)
+	for i := 0; i < n; i++ {
+		cfg := c11fillCfg(f, rng)
+		fees := []string{"0", "0", "0.01", "0.005", "0.333333333333333333", "0.000000000000000001"}
+		s := c11fillStart(t, f, tr, cfg, fees[rng.Intn(len(fees))], fees[rng.Intn(len(fees))])
+		if s == nil {
+			continue
+		}
+		s.randomOps(rng, cfg)
 	}
 }
